@@ -146,6 +146,8 @@ func (c *c10conn) SetWriteDeadline(t time.Time) error { return nil }
 type c10step struct {
 	marker string
 	reply  string
+	// (a marker starting with '!' says that the reply does not contain the completion of
+	// all of the step's commands: the step must report an error wherever the stream is cut)
 	// tagged: the reply's final line is the tagged completion of the command issued by do
 	do func(c *Client) error
 }
@@ -254,6 +256,14 @@ func c10transcript(ti int) []c10step {
 				return err
 			}},
 			{"T4 NOOP", "T4 OK n\r\n", func(c *Client) error { return c.Noop().Wait() }}}
+	case 8: // NOOP pipelined behind LOGOUT: the server says BYE, completes LOGOUT and hangs up
+		return []c10step{login,
+			{"!T3 NOOP", "* BYE bye\r\nT2 OK out\r\n", func(c *Client) error {
+				out := c.Logout()
+				n := c.Noop()
+				out.Wait()
+				return n.Wait() // NOOP's completion is never sent
+			}}}
 	case 6: // AUTHENTICATE PLAIN without SASL-IR (empty challenge, then the response), NOOP
 		return []c10step{
 			{"T1 AUTHENTICATE PLAIN\r\n", "+ \r\n", nil},
@@ -289,7 +299,7 @@ func VerifC10Cut() {
 	var ends []int // end offset (in the server stream) of each step's reply
 	for _, s := range steps {
 		vc.replies = append(vc.replies, s.reply)
-		vc.markers = append(vc.markers, s.marker)
+		vc.markers = append(vc.markers, strings.TrimPrefix(s.marker, "!"))
 		total += len(s.reply)
 		ends = append(ends, total)
 	}
@@ -351,7 +361,7 @@ func VerifC10Cut() {
 	// a command whose completion was not fully received reports an error
 	if mode == 0 {
 		for i, s := range steps {
-			if s.do != nil && ends[i] > vc.cut {
+			if s.do != nil && (ends[i] > vc.cut || strings.HasPrefix(s.marker, "!")) {
 				nd.Assert(errs[i] != nil, "command-reports-success-although-its-completion-was-not-received")
 			}
 		}
